@@ -211,6 +211,51 @@ struct MapA {
     void probes(Ctx&) {}
 };
 
+// ---- insert-only nogc containers: every modifier returns an iterator (end() = failed), there is no erase
+template <class S, class CFG>
+struct NogcSetA {
+    typedef SmrNone Smr; typedef cds::gc::nogc gc; typedef S container;
+    static const unsigned caps = CAPS_NOGC; static const bool update_replaces = false; static const bool ordered = CFG::ordered;
+    std::unique_ptr<S> s;
+    NogcSetA() {}
+    explicit NogcSetA(const Program&) : s(new S()) {}
+    R insert(long key, long inst, int form) { R r; Item it(key, inst); auto i = form == 2 ? s->emplace(key, inst) : s->insert(it); r.ok = i != s->end(); if (r.ok && (key_of(*i) != key || inst_of(*i) != inst)) r.calls = -100; return r; }
+    R erase(long, int) { return R(); }
+    R contains(long key) { R r; auto i = s->contains(key); r.ok = i != s->end(); return r; }
+    R find(long key) { R r; auto i = s->contains(key); r.ok = i != s->end(); if (r.ok) { r.inst = inst_of(*i); if (key_of(*i) != key) r.calls = -100; } return r; }
+    R update(long key, long inst, bool allow) { R r; Item it(key, inst); auto p = s->update(it, allow); r.ok = p.first != s->end(); r.inserted = p.second; if (r.ok) { r.inst = inst_of(*p.first); if (key_of(*p.first) != key) r.calls = -100; } else if (p.second) r.calls = -100; return r; }
+    R extract(long) { return R(); } R get(long) { return R(); } R extract_min() { return R(); } R extract_max() { return R(); }
+    bool traverse(std::vector<long>& out) { if (!CFG::has_iter) return false; iter_all(*s, out, 0); return true; }
+    long size() { return CFG::has_size ? (long)s->size() : -1; }
+    bool empty() { return s->empty(); }
+    bool consistent(std::string&) { return true; }
+    void probes(Ctx&) {}
+};
+template <class M, class CFG>
+struct NogcMapA {
+    typedef SmrNone Smr; typedef cds::gc::nogc gc; typedef M container;
+    static const unsigned caps = CAPS_NOGC; static const bool update_replaces = false; static const bool ordered = CFG::ordered;
+    std::unique_ptr<M> s;
+    NogcMapA() {}
+    explicit NogcMapA(const Program&) : s(new M()) {}
+    R insert(long key, long inst, int form) {
+        R r;
+        auto i = form == 1 ? s->insert_with(key, [&r, inst](typename M::value_type& item) { ++r.calls; item.second = inst; }) : form == 2 ? s->emplace(long(key), inst) : s->insert(key, inst);
+        r.ok = i != s->end(); if ((form == 1 && ((r.ok && r.calls != 1) || (!r.ok && r.calls))) || (r.ok && i->first != key)) r.calls = -100; return r;
+    }
+    R erase(long, int) { return R(); }
+    R contains(long key) { R r; auto i = s->contains(key); r.ok = i != s->end(); return r; }
+    R find(long key) { R r; auto i = s->contains(key); r.ok = i != s->end(); if (r.ok) { r.inst = (long)i->second; if (i->first != key) r.calls = -100; } return r; }
+    // update() default-constructs the mapped value of a new element; the caller fills it in afterwards (unsynchronised by design: readers may see 0)
+    R update(long key, long inst, bool allow) { R r; auto p = s->update(key, allow); r.ok = p.first != s->end(); r.inserted = p.second; if (r.ok) { if (p.second) p.first->second = inst; r.inst = (long)p.first->second; if (p.first->first != key) r.calls = -100; } else if (p.second) r.calls = -100; return r; }
+    R extract(long) { return R(); } R get(long) { return R(); } R extract_min() { return R(); } R extract_max() { return R(); }
+    bool traverse(std::vector<long>& out) { if (!CFG::has_iter) return false; iter_all(*s, out, 0); return true; }
+    long size() { return CFG::has_size ? (long)s->size() : -1; }
+    bool empty() { return s->empty(); }
+    bool consistent(std::string&) { return true; }
+    void probes(Ctx&) {}
+};
+
 // ---- program generation
 struct GenCfg { unsigned caps = CAPS_FULL; int max_threads_quick = 3, max_threads_thorough = 4, max_ops = 5, nkeys_hot = 3, nkeys_cold = 2, min_hazards = 8; int insert_forms = 3, erase_forms = 2; bool readers_may_start_late = true; int hash_modes = 0; };
 inline void smr_knobs(Rng& r, Program& p, int nthreads, int min_hazards) {
@@ -236,6 +281,8 @@ inline void gen_program(Rng& r, Program& p, int tier, const GenCfg& g0) {
     int nth = r.range(lo_threads, tier ? g.max_threads_thorough : g.max_threads_quick);
     int hot = r.range(2, g.nkeys_hot), cold = r.below(g.nkeys_cold + 1);
     p.set("keys", hot + cold); p.set("prefill_mask", c17 ? r.below(4) : r.below(1 << (hot + cold)));
+    // aged structure: some prefilled keys are erased again before the clients start (empty IterableList nodes, Bronson routing nodes, marked / recycled nodes, Feldman slots emptied after a split)
+    p.set("pre_erase_mask", (!c17 && (g.caps & CAP(ERASE)) && r.chance(500)) ? (p.knob("prefill_mask") & r.below(1 << (hot + cold))) : 0);
     p.set("hash_mode", g.hash_modes ? (c17 ? r.pick({1, 1, 2, 2, 0, 3}) % g.hash_modes : r.below(g.hash_modes)) : 0);
     smr_knobs(r, p, nth, g.min_hazards);
     p.threads.resize(nth);
@@ -243,7 +290,10 @@ inline void gen_program(Rng& r, Program& p, int tier, const GenCfg& g0) {
     for (int t = 0; t < nth; t++) {
         if (t > 0 && g.readers_may_start_late && r.chance(120)) p.threads[t].start_after = r.below(t);
         int nops = c20 ? r.range(8, g.max_ops) : r.range(1, g.max_ops), profile = c17 ? 1 : r.below(4);
+        // "do / undo" threads (ABA recipe): insert a, insert b, erase a, erase b ... restores earlier shapes while another thread is parked
+        bool undo = !c17 && !c20 && (g.caps & CAP(ERASE)) && r.chance(150); long ua = 1 + r.below(hot + cold), ub = 1 + r.below(hot + cold); int uphase = r.below(4);
         for (int k = 0; k < nops && total < total_cap; k++, total++) {
+            if (undo) { int ph = (uphase + k) & 3; p.add(t, ph < 2 ? INSERT : ERASE, (ph & 1) ? ub : ua, 0, 0); continue; }
             int kind = pick_kind(r, g.caps, profile);
             long key = 1 + (r.chance(800) ? r.below(hot) : r.below(hot + cold));
             int form = kind == INSERT ? r.below(g.insert_forms) : kind == ERASE ? r.below(g.erase_forms) : 0;
@@ -287,6 +337,8 @@ template <class A> void run(Ctx& ctx) {
             int nkeys = (int)P.knob("keys", 3); long mask = P.knob("prefill_mask");
             int nid = 5000; Op o;
             for (int k = 1; k <= nkeys; k++) if (mask >> (k - 1) & 1) { o = Op(); o.id = nid++; o.kind = INSERT; o.a = k; record(ctx, a, 99, o); }
+            long emask = P.knob("pre_erase_mask");
+            for (int k = 1; k <= nkeys; k++) if (emask >> (k - 1) & 1) { o = Op(); o.id = nid++; o.kind = ERASE; o.a = k; record(ctx, a, 99, o); }
             int eager = (int)P.knob("eager");
             ctx.run_clients(
                 [&](int) { cds::threading::Manager::attachThread(); },
